@@ -8,6 +8,8 @@ S->C  : one-axis operators of the real afb1d_atrous with indicator taps (exact, 
         SWTForward on identity image batches with integer taps vs the Kronecker/level composition of Ref
         operators (shape (N,C,4,H,W), band order A,H,V,D, default and 'periodic' mode); exact shift
         equivariance on integer data; real wavelets vs pywt.swt2.
+C->S  : hook events (level, dilation, mode; per pass: axis, length, filter length, dilation, pad before | after) of real
+        SWTForward calls, incl. a wavelet per axis, validated by Trace_SWT (the level machine of SWT.tla).
 """
 import numpy as np
 import torch
@@ -221,8 +223,9 @@ def run(rep):
                 rep.violation("SWTForward with column wavelet %s and row wavelet %s differs from pywt.swt2((%s, %s)) by %.3g (bound %.3g) at %s"
                               % (wc, wr, wc, wr, err, bound, cfg), {"api": "SWTForward", "check": "swt_numeric_pair", "cfg": cfg})
     rep.count("swt_numeric_comparisons", n_num)
-    from .. import scalechecks
+    from .. import scalechecks, stagetrace
     scalechecks.swt(rep, "C13", tier)
+    stagetrace.validate_swt(rep, "C13", tier)      # code -> spec: hook events of real calls against the level machine
     rep.assumptions += ["sizes are multiples of 2^J as pywt.swt2 requires", "bounded sizes/dilations (coverage.tlc_runs)"]
 
 
